@@ -120,7 +120,7 @@ theorem stackCall_ini (w : World) (c : Nat) (inv : Bool) (tg : Target) (cmd : Cm
     · exact Or.inl rfl
     · split
       · exact Or.inl rfl
-      · exact Or.inr ⟨rfl, by simpa using hd⟩
+      · exact Or.inr ⟨rfl, by simp⟩
 
 theorem stackCall_ini_mono (w : World) (c : Nat) (inv : Bool) (tg : Target) (cmd : Cmd)
     (keys : List (List Nat)) (ini : List Nat) (n : Nat) (b : Nat) (h : b ∈ ini) :
@@ -137,7 +137,9 @@ theorem stackCall_plain (w : World) (c : Nat) (tg : Target) (cmd : Cmd) (keys : 
   rw [stackCall_eq]
   unfold middleware
   have : ini.contains tg.backend = true := by simpa using hin
-  split <;> simp [this]
+  split
+  · simp
+  · simp
 
 /-! ### the group loop through the stack -/
 
@@ -270,7 +272,7 @@ theorem allBackendsS_ini (w : World) (c : Nat) (inv : Bool) (cmd : Cmd) :
         exact Or.inl h
       · rw [e] at h
         rcases List.mem_cons.1 h with rfl | h
-        · exact Or.inr ⟨by simp [Target.backend], hd⟩
+        · exact Or.inr ⟨by simp, hd⟩
         · exact Or.inl h
     · exact Or.inr ⟨List.mem_cons_of_mem _ h1, h2⟩
 
